@@ -102,12 +102,45 @@ func runC17(s *core.Sim, tier string) RunInfo {
 	}
 	// optional deleter: tail-side, strictly inside the initial chain
 	delTo := uint64(0)
+	wipeRace := false
+	// headMayVanish: a whole-chain deletion is in the race. It removes the very header Head() names
+	// (headers first, pointers last), and the store may be empty for a moment: what a reader sees
+	// of the head in that window is not judged, the final state is.
+	headMayVanish := false
 	var delErr error
 	delDone := false
 	if k >= 3 && s.Tape.Coin("deleter", 1, 2) {
 		delTo = first + 1 + uint64(s.Tape.Draw("del-to", int(k-2)))
+		// sometimes the whole initial chain goes, up to the first height the writers append: the
+		// deletion then runs over the head it saw (a tail-side deletion all the same: it starts
+		// only once that first appended header is readable, so there is always a header to become
+		// the new tail)
+		overHead := false
+		// ... or it does not wait: the deletion may then find nothing at its upper end yet and
+		// take the whole-chain path while the first append is on its way
+		wipeRace = s.Tape.Coin("whole-chain-delete-races-first-append", 1, 2)
+		for _, r := range all {
+			if r.from == top && s.Tape.Coin("delete-up-to-first-appended", 1, 3) {
+				overHead = true
+				delTo = top
+				headMayVanish = wipeRace
+				break
+			}
+		}
 		plan = append(plan, fmt.Sprintf("deleter [%d,%d)", first, delTo))
 		tasks = append(tasks, s.Go("deleter", func() {
+			if overHead && !wipeRace {
+				s.Probe("deleter-runs-over-the-head")
+				for i := 0; i < 200; i++ {
+					c, cancel := short(ctx)
+					_, err := w.St.GetByHeight(c, top)
+					cancel()
+					if err == nil {
+						break
+					}
+					s.Yield("deleter-waits-for-first-append")
+				}
+			}
 			delErr = w.St.DeleteRange(ctx, first, delTo)
 			delDone = true
 		}))
@@ -123,6 +156,15 @@ func runC17(s *core.Sim, tier string) RunInfo {
 			for i := 0; i < rounds && !stop && !s.Failed(); i++ {
 				atomic.AddInt64(&obs64, 1)
 				hd, err := w.St.Head(ctx)
+				if headMayVanish {
+					if err == nil {
+						_, _ = w.St.GetByHeight(ctx2s(ctx), hd.Height())
+						_, _ = w.St.Get(ctx, hd.Hash())
+					}
+					_ = w.St.Height()
+					s.Yield("reader-pause")
+					continue
+				}
 				if err != nil {
 					s.Violate("head-error", nil, "Head(): %v", err)
 					return
@@ -180,6 +222,12 @@ func runC17(s *core.Sim, tier string) RunInfo {
 				if delTo > first {
 					h := first + uint64((i*5+ri)%int(delTo-first))
 					c, cancel := short(ctx)
+					if (i+ri)%2 == 0 {
+						// by hash first: the header is not in the caches yet, it comes from the datastore
+						if g, err := w.St.Get(c, w.Ch.At(h).Hash()); err == nil && !simhdr.Equal(g, w.Ch.At(h)) {
+							s.Violate("wrong-header", nil, "Get(hash of %d) returned %v", h, g)
+						}
+					}
 					if g, err := w.St.GetByHeight(c, h); err == nil {
 						if !simhdr.Equal(g, w.Ch.At(h)) {
 							s.Violate("wrong-header", nil, "GetByHeight(%d) returned %v", h, g)
@@ -219,6 +267,52 @@ func runC17(s *core.Sim, tier string) RunInfo {
 		}
 		m.Delete(first, delTo)
 		s.Probe("deleter-raced")
+	}
+	if headMayVanish {
+		// the whole chain went while appends arrived: whether the store was empty in between (and
+		// re-initialised from whichever append came next) or not, afterwards nothing deleted is
+		// readable, everything appended is stored, and Tail..Head is a gap-free run of the chain
+		s.Probe("whole-chain-delete-raced-appends")
+		w.do("check-after-whole-chain-race", func() {
+			why := fmt.Sprintf("after a whole-chain deletion raced with appends; %s; %v", w.cfg(), plan)
+			for h := first; h < delTo; h++ {
+				c, cancel := short(ctx)
+				g1, e1 := w.St.GetByHeight(c, h)
+				g2, e2 := w.St.Get(c, w.Ch.At(h).Hash())
+				cancel()
+				if e1 == nil || e2 == nil {
+					s.Violate("absent-readable", map[string]string{"by": "either", "race": "whole-chain"}, "[%s] deleted height %d is readable: byHeight=%v byHash=%v", why, h, g1, g2)
+					return
+				}
+			}
+			for _, r := range all {
+				for h := r.from; h <= r.to; h++ {
+					if g, err := w.St.Get(ctx, w.Ch.At(h).Hash()); err != nil || !simhdr.Equal(g, w.Ch.At(h)) {
+						s.Violate("stored-unreadable", map[string]string{"by": "hash", "race": "whole-chain"}, "[%s] appended height %d: Get(hash)=%v,%v", why, h, g, err)
+						return
+					}
+				}
+			}
+			hd, herr := w.St.Head(ctx)
+			tl, terr := w.St.Tail(ctx)
+			if herr != nil || terr != nil {
+				s.Violate("ends-mismatch", map[string]string{"kind": "error", "race": "whole-chain"}, "[%s] Head err=%v Tail err=%v", why, herr, terr)
+				return
+			}
+			for h := tl.Height(); h <= hd.Height(); h++ {
+				c, cancel := short(ctx)
+				g, err := w.St.GetByHeight(c, h)
+				cancel()
+				if err != nil || !simhdr.Equal(g, w.Ch.At(h)) {
+					s.Violate("stored-unreadable", map[string]string{"by": "height", "race": "whole-chain"}, "[%s] Tail=%d Head=%d but GetByHeight(%d)=%v,%v", why, tl.Height(), hd.Height(), h, g, err)
+					return
+				}
+			}
+			if w.St.Height() != hd.Height() {
+				s.Violate("height-mismatch", map[string]string{"race": "whole-chain"}, "[%s] Height()=%d Head()=%d", why, w.St.Height(), hd.Height())
+			}
+		})
+		return info()
 	}
 	w.checkStore(m, "after all writers finished")
 	return info()
@@ -350,4 +444,11 @@ func runC17Stop(s *core.Sim, w *SW, first, top uint64, plan *[]string, obs *int6
 			}
 		}
 	})
+}
+
+// ctx2s bounds a lookup that may wait for a height which is being deleted under the reader.
+func ctx2s(ctx context.Context) context.Context {
+	c, cancel := context.WithTimeout(ctx, 2*time.Second)
+	_ = cancel // released by the timeout (virtual time)
+	return c
 }
